@@ -16,6 +16,8 @@ WfInit == \/ \E d \in DataLens, p \in Payloads, t \in Times, g \in Guids : \E f 
 BadInit == \E k \in {"desc", "wincert"}, dw \in {0, 7, 8, 9, 23, 24, 25, 40, 100, -1}, av \in {0, 1, 15, 16, 17, 23, 24, 39, 40, 41, 64},
               rv \in {512, 0, 256}, ct \in {3825, 2, 0} :
              Start([kind |-> k, time |-> "typical", dwlen |-> dw, rev |-> rv, ctype |-> ct, guid |-> "pkcs7", datalen |-> 0, payload |-> 0, pfill |-> "rand", avail |-> av])
+LiveWf == WfInit /\ [][Next]_vars /\ WF_vars(Next)
+LiveBad == BadInit /\ [][Next]_vars /\ WF_vars(Next)
 Emit == pc \in {"done", "fail"} =>
           PrintT(ToJson([inp |-> inp, verdict |-> pc, consumed |-> pos, fields |-> fields, wf |-> WellFormedInput(inp)]))
 =============================================================================
